@@ -1,15 +1,19 @@
 #!/bin/bash
-# run_seeded.sh <seeded-id> <prop[:tier[:only-substr]]>... : apply a seeded change to /repo, run the named checks,
-# ALWAYS undo the change, append one line per check to seeded/RESULTS.tmp
+# run_seeded.sh <seeded-id> <prop[:tier[:only-substr]]>... : apply a seeded change to a scratch COPY of /repo's working tree
+# (so that /repo itself stays untouched and other checks can run meanwhile), run the named checks against the copy
+# (VK_REPO), remove the copy, append one line per check to seeded/RESULTS.tmp.
+# Equivalent to: git -C /repo apply <patch>; bin/vk check ...; git -C /repo checkout -- .
 id=$1; shift
-cd /repo && git checkout -q -- . && git apply /verif/seeded/$id/patch.diff || { echo "$id: patch does not apply"; git -C /repo checkout -q -- .; exit 2; }
-trap 'git -C /repo checkout -q -- .' EXIT
+scratch=/var/tmp/cached-vk/seedrepo-$id-$$
+mkdir -p /var/tmp/cached-vk && rm -rf $scratch && rsync -a --exclude /target /repo/ $scratch/ || exit 2
+trap 'rm -rf $scratch' EXIT
+git -C $scratch checkout -q -- . && git -C $scratch apply /verif/seeded/$id/patch.diff || { echo "$id: patch does not apply"; exit 2; }
 for spec in "$@"; do
   IFS=: read p tier only <<< "$spec"
   args="check $p --tier ${tier:-quick} --no-evidence ${VK_EXTRA:---no-replay}"
   [ -n "$only" ] && args="$args --only $only"
   s=$(date +%s)
-  out=$(/verif/bin/vk $args 2>&1 | grep -E "^vk:|VIOLATION|INCONCLUSIVE")
+  out=$(VK_REPO=$scratch /verif/bin/vk $args 2>&1 | grep -E "^vk:|VIOLATION|INCONCLUSIVE")
   rc=$(echo "$out" | grep -oE "exit [0-9]+" | tail -1)
   viol=$(echo "$out" | grep -c "^VIOLATION")
   first=$(echo "$out" | grep "^vk: $p harness" | head -2 | cut -c1-260 | tr '\n' ' ' | tr '|' '/')
